@@ -46,7 +46,7 @@ class PartStats:
             h = common.case_hash(case)
             if h not in self.nontrivial:
                 self.nontrivial.add(h)
-                if len(self.nontrivial) in (4, 25, 90, 300) and len(self.samples) < max_samples + 1:
+                if len(self.nontrivial) in (1, 6, 25, 90, 300) and len(self.samples) < max_samples + 1:
                     self.samples.append({'case': common.trim_sample(case), 'outcome': common.trim_sample(
                         {'ok': out['ok'], 'classes': out.get('classes'), 'summary': out.get('summary'), 'msg': out.get('msg')}, 1500)})
 
@@ -72,8 +72,15 @@ def run_hyp_part(mod, part, stats, tier, seed, deadline, known):
 
     def body(case):
         if time.time() > deadline:
-            stats.budget_skipped += 1
-            return
+            if state['last_fail'] is None:
+                stats.budget_skipped += 1
+                return
+            # a failure is being shrunk: never turn the known failing case into a pass (Hypothesis would call the test
+            # flaky); past a grace period stop exploring smaller candidates and let it finish with what it has
+            if case == state['last_fail']['case']:
+                raise Found(state['last_fail']['outcome']['msg'])
+            if time.time() > deadline + 120:
+                return
         try:
             out = call_run(part, case)
         except (Found, HarnessAbort):
